@@ -320,6 +320,13 @@ func genPlan(seed uint64, idx int) *Plan {
 		}
 		p.Nodes = append(p.Nodes, nd)
 	}
+	if g.chance(1, 10) {
+		p.StaticECH = true
+		spec := &ECHSpec{ID: uint8(r.IntN(256)), PublicName: "public.static.test", KeySeed: r.IntN(1 << 20)}
+		for i := range p.Nodes {
+			p.Nodes[i].ECH = spec
+		}
+	}
 
 	// hosts
 	nh := core.Pick(r, []int{1, 2, 2, 3, 3, 4})
